@@ -11,7 +11,12 @@ package server
 // spanning one to four UPDATEs, host routes included so that the packer fills the UPDATEs - is
 // handed to the real sendMessageloop over a capturing connection inside a testing/synctest bubble.
 //
-// Oracle (no model): EVERY UPDATE on the wire, parsed with Use2ByteAS as the OLD peer's neighbour
+// The session negotiates IPv4 unicast, IPv6 unicast and VPNv4; a group's routes are IPv4 unicast
+// (NLRI field), IPv6 unicast or VPNv4 (MP_REACH_NLRI), or IPv4 unicast with an IPv6 next hop
+// (RFC 8950, MP_REACH_NLRI, one UPDATE per route); batches mix families and carry withdrawals
+// (withdrawn-routes field and MP_UNREACH_NLRI).
+//
+// Oracle (no model): EVERY UPDATE on the wire that announces routes - whatever field carries them -, parsed with Use2ByteAS as the OLD peer's neighbour
 // would and reconstructed by the real UpdatePathAttrs4ByteAs / UpdatePathAggregator4ByteAs, gives
 // back the AS_PATH (4-octet confederation members → AS_TRANS) and the AGGREGATOR of the group its
 // prefixes belong to; every prefix arrives exactly once; the attribute slices handed to the sender,
@@ -184,7 +189,20 @@ func (c *c14sConn) RemoteAddr() net.Addr {
 	return &net.TCPAddr{IP: net.IPv4(10, 0, 0, 2).To4(), Port: 40000}
 }
 
+// address family / encoding of a group's routes
+const (
+	c14sV4     = 0 // IPv4 unicast, NLRI field, NEXT_HOP
+	c14sV6     = 1 // IPv6 unicast, MP_REACH_NLRI
+	c14sVPN4   = 2 // VPNv4, MP_REACH_NLRI
+	c14sV4NHv6 = 3 // IPv4 unicast with IPv6 next hop, MP_REACH_NLRI, one UPDATE per route
+)
+
+var c14sFamName = []string{"ipv4-unicast", "ipv6-unicast", "l3vpn-ipv4-unicast", "ipv4-unicast-ipv6-nexthop"}
+
 type c14sGroup struct {
+	fam    int
+	nwd    int // withdrawals of this family sent along
+	wdSeen int
 	path   []c14sSeg
 	hasAgg bool
 	aggAS  uint32
@@ -204,14 +222,67 @@ func c14sBytes(a bgp.PathAttributeInterface) string {
 
 var c14sAggAddr = netip.MustParseAddr("192.0.2.14")
 
+// the i-th prefix of group gi (wd: from the range used for withdrawals); the group is readable
+// from the prefix
+func c14sNlri(fam, gi, i, plen int, wd bool) (bgp.Family, bgp.NLRI) {
+	tag := byte(10 + gi)
+	if wd {
+		tag = byte(110 + gi)
+	}
+	switch fam {
+	case c14sV6:
+		a := [16]byte{0x20, 0x01, 0x0d, 0xb8, tag, 0, byte(i >> 8), byte(i)}
+		n, _ := bgp.NewIPAddrPrefix(netip.PrefixFrom(netip.AddrFrom16(a), 64))
+		return bgp.RF_IPv6_UC, n
+	case c14sVPN4:
+		pfx := netip.PrefixFrom(netip.AddrFrom4([4]byte{tag, byte(i >> 8), byte(i), 0}), 24)
+		n, _ := bgp.NewLabeledVPNIPAddrPrefix(pfx, *bgp.NewMPLSLabelStack(uint32(100 + gi)), bgp.NewRouteDistinguisherTwoOctetAS(65000, uint32(gi)))
+		return bgp.RF_IPv4_VPN, n
+	default:
+		v := uint32(i) << (32 - plen)
+		n, _ := bgp.NewIPAddrPrefix(netip.PrefixFrom(netip.AddrFrom4([4]byte{tag, byte(v >> 16), byte(v >> 8), byte(v)}), plen))
+		return bgp.RF_IPv4_UC, n
+	}
+}
+
+// (group index, is from the withdrawal range, ok)
+func c14sGroupOf(n bgp.NLRI) (int, bool, bool) {
+	var tag int
+	switch x := n.(type) {
+	case *bgp.IPAddrPrefix:
+		if x.Prefix.Addr().Is4() {
+			tag = int(x.Prefix.Addr().As4()[0])
+		} else {
+			tag = int(x.Prefix.Addr().As16()[4])
+		}
+	case *bgp.LabeledVPNIPAddrPrefix:
+		tag = int(x.Prefix.Addr().As4()[0])
+	default:
+		return 0, false, false
+	}
+	switch {
+	case tag >= 110 && tag < 120:
+		return tag - 110, true, true
+	case tag >= 10 && tag < 20:
+		return tag - 10, false, true
+	}
+	return 0, false, false
+}
+
 func c14sCase(t *testing.T, o *vOut, r *vRand, groups []*c14sGroup, fourOctetPeer, ext bool, tag string) {
 	synctest.Test(t, func(t *testing.T) {
 		logger := slog.New(slog.NewTextHandler(io.Discard, nil))
 		conn := &c14sConn{}
-		neigh := &oc.Neighbor{AfiSafis: []oc.AfiSafi{{
-			Config: oc.AfiSafiConfig{AfiSafiName: oc.AFI_SAFI_TYPE_IPV4_UNICAST, Enabled: true},
-			State:  oc.AfiSafiState{AfiSafiName: oc.AFI_SAFI_TYPE_IPV4_UNICAST, Enabled: true, Family: bgp.RF_IPv4_UC},
-		}}}
+		neigh := &oc.Neighbor{}
+		for _, af := range []struct {
+			n oc.AfiSafiType
+			f bgp.Family
+		}{{oc.AFI_SAFI_TYPE_IPV4_UNICAST, bgp.RF_IPv4_UC}, {oc.AFI_SAFI_TYPE_IPV6_UNICAST, bgp.RF_IPv6_UC}, {oc.AFI_SAFI_TYPE_L3VPN_IPV4_UNICAST, bgp.RF_IPv4_VPN}} {
+			neigh.AfiSafis = append(neigh.AfiSafis, oc.AfiSafi{
+				Config: oc.AfiSafiConfig{AfiSafiName: af.n, Enabled: true},
+				State:  oc.AfiSafiState{AfiSafiName: af.n, Enabled: true, Family: af.f},
+			})
+		}
 		f := newFSM(&oc.Global{}, neigh, bgp.BGP_FSM_IDLE, logger)
 		f.conn = conn
 		h := &fsmHandler{fsm: f, outgoing: channels.NewInfiniteChannel(), callback: func(*fsmMsg) {}}
@@ -223,7 +294,7 @@ func c14sCase(t *testing.T, o *vOut, r *vRand, groups []*c14sGroup, fourOctetPee
 		}()
 
 		// the peer's OPEN: an OLD speaker has no 4-octet AS capability
-		caps := []bgp.ParameterCapabilityInterface{bgp.NewCapMultiProtocol(bgp.RF_IPv4_UC)}
+		caps := []bgp.ParameterCapabilityInterface{bgp.NewCapMultiProtocol(bgp.RF_IPv4_UC), bgp.NewCapMultiProtocol(bgp.RF_IPv6_UC), bgp.NewCapMultiProtocol(bgp.RF_IPv4_VPN)}
 		if fourOctetPeer {
 			caps = append(caps, bgp.NewCapFourOctetASNumber(65002))
 		}
@@ -244,12 +315,16 @@ func c14sCase(t *testing.T, o *vOut, r *vRand, groups []*c14sGroup, fourOctetPee
 		gdesc := []map[string]any{}
 		paths := []*table.Path{}
 		for gi, g := range groups {
-			nh, _ := bgp.NewPathAttributeNextHop(netip.AddrFrom4([4]byte{192, 0, 2, byte(1 + gi)}))
 			params := make([]bgp.AsPathParamInterface, 0, len(g.path))
 			for _, s := range g.path {
 				params = append(params, bgp.NewAs4PathParam(s.typ, append([]uint32{}, s.as...)))
 			}
-			g.attrs = []bgp.PathAttributeInterface{bgp.NewPathAttributeOrigin(uint8(gi % 3)), bgp.NewPathAttributeAsPath(params), nh}
+			// the attribute objects every route of the group shares
+			g.attrs = []bgp.PathAttributeInterface{bgp.NewPathAttributeOrigin(uint8(gi % 3)), bgp.NewPathAttributeAsPath(params)}
+			if g.fam == c14sV4 {
+				nh, _ := bgp.NewPathAttributeNextHop(netip.AddrFrom4([4]byte{192, 0, 2, byte(1 + gi)}))
+				g.attrs = append(g.attrs, nh)
+			}
 			if g.hasAgg {
 				ag, _ := bgp.NewPathAttributeAggregator(g.aggAS, c14sAggAddr)
 				g.attrs = append(g.attrs, ag)
@@ -259,14 +334,36 @@ func c14sCase(t *testing.T, o *vOut, r *vRand, groups []*c14sGroup, fourOctetPee
 			for _, a := range g.attrs {
 				g.ser = append(g.ser, c14sBytes(a))
 			}
-			for i := 0; i < g.n; i++ {
-				// first octet = 10+group: an UPDATE's prefixes tell which group it belongs to
-				v := uint32(i) << (32 - g.plen)
-				pfx := netip.PrefixFrom(netip.AddrFrom4([4]byte{byte(10 + gi), byte(v >> 16), byte(v >> 8), byte(v)}), g.plen)
-				n, _ := bgp.NewIPAddrPrefix(pfx)
-				paths = append(paths, table.NewPath(bgp.RF_IPv4_UC, nil, bgp.PathNLRI{NLRI: n}, false, g.attrs, time.Unix(1700000000, 0), false))
+			nh6 := netip.AddrFrom16([16]byte{0x20, 0x01, 0x0d, 0xb8, 0xff, byte(gi), 15: 1})
+			nh4 := netip.AddrFrom4([4]byte{192, 0, 2, byte(1 + gi)})
+			for i := 0; i < g.n+g.nwd; i++ {
+				wd := i >= g.n
+				idx := i
+				if wd {
+					idx = i - g.n
+				}
+				fam, n := c14sNlri(g.fam, gi, idx, g.plen, wd)
+				pn := bgp.PathNLRI{NLRI: n}
+				if wd {
+					paths = append(paths, table.NewPath(fam, nil, pn, true, nil, time.Unix(1700000000, 0), false))
+					continue
+				}
+				attrs := g.attrs
+				if g.fam != c14sV4 {
+					// MP families: the route's own MP_REACH_NLRI next to the shared attribute objects
+					nh := nh6
+					if g.fam == c14sVPN4 {
+						nh = nh4
+					}
+					mp, err := bgp.NewPathAttributeMpReachNLRI(fam, []bgp.PathNLRI{pn}, nh)
+					if err != nil {
+						t.Fatalf("C14 sender harness: MP_REACH_NLRI: %v", err)
+					}
+					attrs = append(append(make([]bgp.PathAttributeInterface, 0, len(g.attrs)+1), g.attrs...), mp)
+				}
+				paths = append(paths, table.NewPath(fam, nil, pn, false, attrs, time.Unix(1700000000, 0), false))
 			}
-			gdesc = append(gdesc, map[string]any{"as_path": c14sFmt(g.path), "has_aggregator": g.hasAgg, "aggregator_as": g.aggAS, "prefixes": g.n, "prefix_len": g.plen})
+			gdesc = append(gdesc, map[string]any{"as_path": c14sFmt(g.path), "has_aggregator": g.hasAgg, "aggregator_as": g.aggAS, "prefixes": g.n, "prefix_len": g.plen, "family": c14sFamName[g.fam], "withdrawals": g.nwd})
 		}
 		detail := func(extra map[string]any) map[string]any {
 			extra["case"] = tag
@@ -326,27 +423,57 @@ func c14sCase(t *testing.T, o *vOut, r *vRand, groups []*c14sGroup, fourOctetPee
 			}
 			m, err := bgp.ParseBGPMessage(raw, popt)
 			if err != nil {
-				o.fail("wire-unreadable", detail(map[string]any{"why": "UPDATE does not parse with the session's options: " + err.Error(), "update": nUpd}))
+				cls := "wire-unreadable"
+				if !fourOctetPeer {
+					// what the OLD peer (which reads 2-octet AS numbers) makes of it
+					cls = "wire-malformed-for-2-octet-peer"
+				}
+				_, err4 := bgp.ParseBGPMessage(raw, &bgp.MarshallingOption{ExtendedMessage: limit > 4096})
+				o.fail(cls, detail(map[string]any{"why": "UPDATE does not parse with the session's options: " + err.Error(), "update": nUpd,
+					"parses_when_read_with_4_octet_as_numbers": err4 == nil, "hex_head": hex.EncodeToString(raw[:min(len(raw), 96)])}))
 				continue
 			}
 			u := m.Body.(*bgp.BGPUpdate)
-			if len(u.NLRI) == 0 {
+			ann := append([]bgp.PathNLRI{}, u.NLRI...)
+			wds := append([]bgp.PathNLRI{}, u.WithdrawnRoutes...)
+			viaMP := false
+			for _, a := range u.PathAttributes {
+				switch x := a.(type) {
+				case *bgp.PathAttributeMpReachNLRI:
+					ann = append(ann, x.Value...)
+					viaMP = true
+				case *bgp.PathAttributeMpUnreachNLRI:
+					wds = append(wds, x.Value...)
+				}
+			}
+			for _, w := range wds {
+				gi, wd, ok := c14sGroupOf(w.NLRI)
+				if !ok || !wd || gi >= len(groups) {
+					o.fail("wire-routes-lost", detail(map[string]any{"why": "withdrawal of a prefix that was not withdrawn: " + w.NLRI.String()}))
+					continue
+				}
+				groups[gi].wdSeen++
+			}
+			if len(ann) == 0 {
 				continue
 			}
 			nUpd++
-			gi := int(u.NLRI[0].NLRI.(*bgp.IPAddrPrefix).Prefix.Addr().As4()[0]) - 10
-			if gi < 0 || gi >= len(groups) {
-				o.fail("wire-routes-lost", detail(map[string]any{"why": "unknown prefix " + u.NLRI[0].NLRI.String()}))
+			gi, wd, ok := c14sGroupOf(ann[0].NLRI)
+			if !ok || wd || gi >= len(groups) {
+				o.fail("wire-routes-lost", detail(map[string]any{"why": "unknown prefix " + ann[0].NLRI.String()}))
 				continue
 			}
 			g := groups[gi]
-			for _, n := range u.NLRI {
-				if int(n.NLRI.(*bgp.IPAddrPrefix).Prefix.Addr().As4()[0])-10 != gi {
+			for _, n := range ann {
+				if gj, wd, ok := c14sGroupOf(n.NLRI); !ok || wd || gj != gi {
 					o.fail("wire-routes-lost", detail(map[string]any{"why": "one UPDATE carries prefixes of two attribute groups", "update": nUpd}))
 					break
 				}
 			}
-			g.seen += len(u.NLRI)
+			if viaMP {
+				o.stat("send_updates_mp_reach", 1)
+			}
+			g.seen += len(ann)
 			g.msgs++
 			nth := g.msgs
 			cls := "wire-roundtrip-lost:later-update-of-group"
@@ -354,7 +481,7 @@ func c14sCase(t *testing.T, o *vOut, r *vRand, groups []*c14sGroup, fourOctetPee
 				cls = "wire-roundtrip-lost:first-update-of-group"
 			}
 			md := func(why string) map[string]any {
-				return detail(map[string]any{"why": why, "group": gi, "update_of_group": nth, "nlris": len(u.NLRI)})
+				return detail(map[string]any{"why": why, "group": gi, "update_of_group": nth, "nlris": len(ann), "family": c14sFamName[g.fam]})
 			}
 			var rx2 *bgp.PathAttributeAsPath
 			var rx4 *bgp.PathAttributeAs4Path
@@ -480,8 +607,15 @@ func c14sCase(t *testing.T, o *vOut, r *vRand, groups []*c14sGroup, fourOctetPee
 		}
 		for gi, g := range groups {
 			o.stat(fmt.Sprintf("send_group_spans_%d", min(g.msgs, 5)), 1)
+			o.stat("send_groups_"+c14sFamName[g.fam], 1)
 			if g.seen != g.n {
 				o.fail("wire-routes-lost", detail(map[string]any{"why": fmt.Sprintf("group %d: %d of %d prefixes on the wire", gi, g.seen, g.n)}))
+			}
+			if g.wdSeen != g.nwd {
+				o.fail("wire-routes-lost", detail(map[string]any{"why": fmt.Sprintf("group %d: %d of %d withdrawals on the wire", gi, g.wdSeen, g.nwd)}))
+			}
+			if g.nwd > 0 {
+				o.stat("send_groups_with_withdrawals", 1)
 			}
 			// the routes still hold what they held (they stay in the RIB and go to other peers)
 			bad := len(g.attrs) != len(g.ident)
@@ -512,6 +646,14 @@ func TestVerifC14Send(t *testing.T) {
 	// control: the same towards a 4-octet peer
 	c14sCase(t, o, r, []*c14sGroup{{path: []c14sSeg{seg(2, 65001, 4200000001, 300)}, hasAgg: true, aggAS: 4200000001, n: 1800, plen: 24}}, true, false, "corpus-send-4-octet-peer")
 
+	// MP families: IPv6 unicast spanning several UPDATEs + VPNv4 + IPv4 with IPv6 next hop, with withdrawals
+	c14sCase(t, o, r, []*c14sGroup{
+		{fam: c14sV6, path: []c14sSeg{seg(2, 65001, 4200000001, 300)}, hasAgg: true, aggAS: 4200000001, n: 1000, nwd: 30, plen: 64},
+		{fam: c14sVPN4, path: []c14sSeg{seg(3, 65010, 70000), seg(1, 70001, 3), seg(2, 400000, 5)}, hasAgg: true, aggAS: 300000, n: 300, nwd: 5, plen: 24},
+		{fam: c14sV4NHv6, path: []c14sSeg{seg(2, 65000, 400000)}, hasAgg: true, aggAS: 70000, n: 12, plen: 24},
+		{fam: c14sV4, path: []c14sSeg{seg(2, 65000, 400000, 300000, 64512)}, hasAgg: true, aggAS: 64999, n: 900, nwd: 40, plen: 24},
+	}, false, false, "corpus-send-mp-families")
+
 	n := 45
 	if o.thorough {
 		n = 320
@@ -529,7 +671,10 @@ func TestVerifC14Send(t *testing.T) {
 		}
 		groups := []*c14sGroup{}
 		for gi := 0; gi < ng; gi++ {
-			g := &c14sGroup{path: c14sGenPath(r), hasAgg: r.chance(75)}
+			g := &c14sGroup{path: c14sGenPath(r), hasAgg: r.chance(75), fam: r.pick(c14sV4, c14sV4, c14sV6, c14sV6, c14sVPN4, c14sV4NHv6)}
+			if r.chance(35) {
+				g.nwd = 1 + r.intn(40)
+			}
 			if g.hasAgg {
 				g.aggAS = c14sAS(r, r.chance(65))
 			}
@@ -538,7 +683,14 @@ func TestVerifC14Send(t *testing.T) {
 				alen += 2 + 4*len(s.as)
 			}
 			g.plen = r.pick(20, 24, 24, 24, 32, 32, 25)
-			room := (limit - 23 - alen - 60) / 5
+			per := 5
+			switch g.fam {
+			case c14sV6:
+				per = 9
+			case c14sVPN4:
+				per = 15
+			}
+			room := (limit - 23 - alen - 80) / per
 			if room < 20 {
 				room = 20
 			}
@@ -553,6 +705,10 @@ func TestVerifC14Send(t *testing.T) {
 			}
 			if g.n >= 1<<16 {
 				g.n = 1<<16 - 1
+			}
+			if g.fam == c14sV4NHv6 {
+				g.n = 1 + r.intn(25) // one UPDATE per route
+				g.plen = 24
 			}
 			groups = append(groups, g)
 		}
